@@ -182,6 +182,10 @@ pub fn world(quick: bool) -> World {
 pub fn run(ctx: Ctx) -> ! {
     let world = world(ctx.quick());
     if let Some(case) = ctx.replay_case() {
+        if case["family"].as_str() == Some("size-sweep-zone") {
+            let (w4, _) = crate::c04::world_for(4);
+            replay(ctx, &w4, verdict, RULE);
+        }
         if case["family"].as_str() == Some("query/reused-buffer") {
             replay_reused(ctx, &world);
         }
@@ -216,7 +220,7 @@ pub fn run(ctx: Ctx) -> ! {
     let decos: &[zones::Deco] = if ctx.quick() { &zones::DECOS_QUICK } else { &zones::DECOS_THOROUGH };
     let std_recs = std_recs_with_extras();
     let groups: Vec<(&str, Vec<&str>, Vec<Vec<u8>>)> = vec![
-        ("std", all.iter().copied().filter(|n| !["deep", "big", "wide", "straddle"].contains(n)).collect(), zones::name_universe(&std_recs)),
+        ("std", all.iter().copied().filter(|n| !["deep", "big", "wide", "straddle", "rev"].contains(n)).collect(), zones::name_universe(&std_recs)),
         ("deep", vec!["deep"], zones::name_universe(&zones::deep_zone_recs())),
         (
             "big",
@@ -257,6 +261,23 @@ pub fn run(ctx: Ctx) -> ! {
         run_reusing_buffer(&ctx, &world, &gslots, gname, &reqs);
         eprintln!("[C02] query universe {gname} (reused buffer) done at {:.1}s ({} calls)", ctx.elapsed_s(), ctx.evaluations());
     }
+    // C04's size-sweep zone: answers, referrals with multi-address glue and
+    // additional sections that cross 512 / 1232 octets one octet at a time,
+    // so that records and RRsets are cut off at every position (partially
+    // fitting RRsets, rolled-back writes) - here judged for well-formedness.
+    {
+        let (w4, queries) = crate::c04::world_for(4);
+        let mut reqs = Vec::new();
+        for q in &queries {
+            for deco in [zones::Deco::Plain, zones::Deco::Edns { size: 1232, dnssec_ok: false }] {
+                reqs.push(families::Req { family: "size-sweep-zone", desc: format!("{} {} type{} {:?}", q.scenario, qvlib::wire::name_text(&q.qname), q.qtype, deco), bytes: zones::build_query(0x4004, 0, &q.qname, q.qtype, c::IN, deco) });
+            }
+        }
+        let slots4: Vec<Slot> = [512u16, 4096].iter().map(|s| Slot::new(&w4, "c04", crate::common::Cfg::plain(*s, true))).collect();
+        universe_sizes.push(json!({"zone_family": "c04 size-sweep zone", "requests": reqs.len()}));
+        drive::run_reqs(&ctx, &w4, &slots4, &reqs, false, verdict);
+        eprintln!("[C02] size-sweep zone done at {:.1}s ({} calls)", ctx.elapsed_s(), ctx.evaluations());
+    }
     ctx.set_extra("query_universes", json!(universe_sizes));
 
     if !ctx.quick() {
@@ -273,4 +294,4 @@ pub fn run(ctx: Ctx) -> ! {
 
 
 
-const RULE: &str = "every truncation and every single-field/structural mutation of every request template (thorough: x every truncation, and all mutation pairs), plus names-near-zone-data x QTYPEs x QCLASSes x {plain,EDNS,TSIG,EDNS+TSIG} (and, class IN, in stretches of 256 consecutive queries handled on one response buffer that is not restored in between); x transports x server configurations x catalogs with valid RDATA; oracle: strict independent RFC 1035 decode of every response + OPT at most once and only in additional + TSIG at most once and last";
+const RULE: &str = "every truncation and every single-field/structural mutation of every request template (thorough: x every truncation, and all mutation pairs), plus names-near-zone-data x QTYPEs x QCLASSes x {plain,EDNS,TSIG,EDNS+TSIG} (and, class IN, in stretches of 256 consecutive queries handled on one response buffer that is not restored in between); x transports x server configurations x catalogs with valid RDATA; plus the queries of C04's size-sweep zone (responses cut off at every position near 512 / 1232 octets); oracle: strict independent RFC 1035 decode of every response + OPT at most once and only in additional + TSIG at most once and last";
